@@ -66,6 +66,7 @@ def verify_function(key, want_props=None, cross=False):
                 e2 = Engine(repo, key, B)
                 e2.run_lemma(lem)
                 engines.append(e2)
+        exhausted = False
         for e in engines:
             out['assumptions'] += sorted(e.assumptions)
             out['trusted'] += sorted(e.trusted_used)
@@ -74,7 +75,8 @@ def verify_function(key, want_props=None, cross=False):
             for ob in e.obligations:
                 if want_props and not (set(ob.props) & set(want_props)):
                     continue
-                solver.discharge(ob, cross_check=cross)
+                solver.discharge(ob, cross_check=cross, short=exhausted)
+                exhausted = exhausted or getattr(ob, 'exhausted', False)
                 d = {'name': ob.name, 'kind': ob.kind, 'props': list(ob.props), 'text': ob.text,
                      'status': ob.status, 'backend': ob.backend, 'time_s': round(ob.time_s, 4),
                      'reason': ob.reason, 'float_mode': e.contract.float_mode}
